@@ -16,7 +16,7 @@ SINGLE = ["seq_range", "epoch_range", "frame_range", "lamport_range", "distinct"
 def wide_cases(c):
     """vectors with field values beyond 2^31 (up to 2^32-1): single-field changes of two well-formed events, wrap-arounds"""
     rnd = random.Random(c.seed)
-    W = [2 ** 31 - 3, 2 ** 31 - 2, 2 ** 31 - 1, 2 ** 31, 2 ** 31 + 1, 2 ** 32 - 2, 2 ** 32 - 1]
+    W = c.pick([2 ** 31 - 2, 2 ** 31, 2 ** 32 - 1], [2 ** 31 - 3, 2 ** 31 - 2, 2 ** 31 - 1, 2 ** 31, 2 ** 31 + 1, 2 ** 32 - 2, 2 ** 32 - 1])
     sp = dict(creator=1, seq=1, lamport=3, k=1)
     op = dict(creator=2, seq=7, lamport=2, k=2)
     base2 = dict(e=dict(creator=1, epoch=5, seq=2, frame=3, lamport=4), ps=[sp, op], cur=5, vals=[1, 2])
